@@ -98,7 +98,9 @@ def verify_unit(repo, reg, qualname, timeout_ms=10000, instance=None):
     try:
         for nm in argnames:
             if nm not in c.params:
-                raise Unsupported("contract for %s lacks a sort for parameter %r" % (qualname, nm))
+                # a parameter the contract does not know (signature changed): an arbitrary dynamic value
+                env[nm] = make_symbolic(nm, Dyn, assumptions)
+                continue
             env[nm] = make_symbolic(nm, c.params[nm], assumptions)
         for nm, srt in c.ghost.items():
             env[nm] = make_symbolic(nm, srt, assumptions)
@@ -286,7 +288,7 @@ def frame_obligations(ex, c, p0, q, unit, k, obl, is_prop, env=None):
         obl.append(Obligation(unit, cid, list(q.pc), t1 == t0, "frame", is_prop(cid) or True,
                               dict(path=k, text="store component %s unchanged" % comp)))
     for fld, t1 in q.heap.items():
-        if ("heap." + fld) in c.modifies:
+        if ("heap." + fld) in c.modifies or fld in ex.undeclared_fields:
             continue
         ats = [m.split("@")[1] for m in c.modifies if m.startswith("heap.%s@" % fld) and not m.endswith("@new")]
         t0 = p0.heap.get(fld)
